@@ -233,7 +233,7 @@ class World:
     def kind_of_obj(self, obj):
         g = self.g
         for k, c in self.kind_cls.items():
-            if type(obj) is c:
+            if isinstance(obj, c):
                 return k
         return None
 
